@@ -216,6 +216,9 @@ def encode_op(op):
         return [63] + flat
     if k == 'compact':
         return [64] + list(op[2])
+    if k == 'occname':
+        _, u, v, t = op
+        return [66, t, len(u)] + [ord(c) for c in u] + [ord(c) for c in v]
     if k == 'wsnap':
         return [70, op[1]]
     if k == 'rsnap':
@@ -419,6 +422,23 @@ def decode_res(op, ints, directed_of):
         return dict(zip(['shortest', 'fastest', 'foremost', 'fastest_shortest', 'shortest_fastest'], out))
     if k == 'compact':
         return sorted(_pairs(ints))
+    if k == 'occname':
+        i = 0
+        def text():
+            nonlocal i
+            n = ints[i]; r = ''.join(chr(c) for c in ints[i + 1:i + 1 + n]); i += 1 + n
+            return r
+        nu, nv = text(), text()
+        if ints[i] == 0:
+            return 'MODEL-DECODE-FAILED'
+        i += 1; du = text()
+        if ints[i] == 0:
+            return 'MODEL-DECODE-FAILED'
+        t = ints[i + 1]; i += 2; dv = text()
+        if ints[i] == 0:
+            return 'MODEL-DECODE-FAILED'
+        i += 1; nn = text()
+        return dict(names=[nu, nv], hop=(du, dv, t), node_of_target=nn)
     raise ValueError(op)
 
 
@@ -616,6 +636,21 @@ class Impl:
             return {kk: sorted(tuple(tuple(h) for h in p) for p in v) for kk, v in res.items()}
         if k == 'compact':
             return sorted(D.compact_timeslot(list(op[2])).items())
+        if k == 'occname':
+            # the library's own naming of DAG occurrences and its decoding, on a one-interaction graph
+            from dynetx.algorithms import paths as al
+            _, u, v, t = op
+            G = D.DynGraph()
+            G.add_interaction(u, v, t)
+            try:
+                DAG, sources, targets, _nt, _tt = al.temporal_dag(G, u)
+                res = al.time_respecting_paths(G, u, v)
+            except Exception as x:
+                return _exc_name(x)
+            hops = [h for ps in res.values() for p in ps for h in p]
+            if len(sources) != 1 or len(targets) != 1 or len(hops) != 1:
+                return 'UNEXPECTED-SHAPE:%r %r %r' % (sources, targets, hops)
+            return dict(names=[sources[0], targets[0]], hop=tuple(hops[0]), node_of_target=v)
         if k in ('rsnap', 'rint', 'nlg', 'rtext'):
             return self.step_io_read(op)
         if op[1] not in self.R:
